@@ -190,20 +190,20 @@ def loadRec (s : State) (k : Oid) : Option Rec :=
     | none => s.snap.get k
   | none => s.snap.get k
 
-/-- attribute access: a ghost is loaded through `Connection.setstate` -/
-def access (s : State) (i : ObjId) : Except Err State :=
+/-- attribute access: a ghost is loaded through `Connection.setstate` (on error nothing changes) -/
+def access (s : State) (i : ObjId) : State × Option Err :=
   let o := s.objs i
-  if o.status ≠ .ghost then .ok s
-  else if !o.jar then .error .noState
-  else if !s.opened then .error .connClosed
+  if o.status ≠ .ghost then (s, none)
+  else if !o.jar then (s, some .noState)
+  else if !s.opened then (s, some .connClosed)
   else
     match o.oid with
-    | none => .error .noState
+    | none => (s, some .noState)
     | some k =>
       match loadRec s k with
-      | none => .error .posKey
-      | some r => .ok (setO s i { o with status := .uptodate, serial := r.serial, val := r.val,
-                                          refs := r.refs })
+      | none => (s, some .posKey)
+      | some r => (setO s i { o with status := .uptodate, serial := r.serial, val := r.val,
+                                      refs := r.refs }, none)
 
 /-! ### registration -/
 
@@ -344,16 +344,16 @@ def serialize (s : State) (refs : List ObjId) : State × List ObjId :=
   refs.foldl persistentId (s, [])
 
 /-- the storage's `store` (through the MVCC adapter), with the injected fault and the conflict test -/
-def storageStore (s : State) (k : Oid) (r : Rec) : Except Err State :=
+def storageStore (s : State) (k : Oid) (r : Rec) : State × Option Err :=
   let n := s.nstores
   let s := { s with nstores := n + 1 }
-  if s.fail = .store n then .error .injected
+  if s.fail = .store n then (s, some .injected)
   else
     match s.committed.get k with
     | some c =>
-      if c.serial ≠ r.serial then .error .conflict
-      else .ok { s with staged := s.staged ++ [(k, r)] }
-    | none => .ok { s with staged := s.staged ++ [(k, r)] }
+      if c.serial ≠ r.serial then (s, some .conflict)
+      else ({ s with staged := s.staged ++ [(k, r)] }, none)
+    | none => ({ s with staged := s.staged ++ [(k, r)] }, none)
 
 /-- is the object "new" for `_store_objects` -/
 def isNewObj (s : State) (o : Obj) (k : Oid) : Bool :=
@@ -364,34 +364,38 @@ def isNewObj (s : State) (o : Obj) (k : Oid) : Bool :=
                  | none => true
                  | some flag => flag)
 
-/-- one iteration of the loop of `_store_objects`; returns the objects pushed on the stack -/
-def storeOne (s : State) (i : ObjId) : Except Err State × State × List ObjId :=
-  let o := s.objs i
-  match o.oid with
-  | none => (.error .assertion, s, [])
+/-- bookkeeping of `_store_objects` before serializing: a new object goes to `_creating` (and leaves
+    `_added`), any other to `_modified` -/
+def classify (s : State) (i : ObjId) (k : Oid) : State :=
+  if isNewObj s (s.objs i) k then
+    { s with creating := s.creating.set k (!s.added.has k), added := s.added.del k }
+  else { s with modified := s.modified ++ [k] }
+
+/-- `self._storage.store(…)`, then `self._cache[oid] = obj`; a TmpStore returns the serial, which makes
+    the object up to date -/
+def storeRec (s : State) (i : ObjId) (k : Oid) (r : Rec) : State × Option Err :=
+  match s.sp with
+  | some t =>
+    let s := { s with sp := some (t.store k r), cache := s.cache.set k i }
+    (setO s i { s.objs i with status := .uptodate }, none)
+  | none =>
+    match storageStore s k r with
+    | (s, some e) => (s, some e)
+    | (s, none) => ({ s with cache := s.cache.set k i }, none)
+
+/-- one iteration of the loop of `_store_objects`; also returns the objects pushed on the stack -/
+def storeOne (s : State) (i : ObjId) : (State × Option Err) × List ObjId :=
+  match (s.objs i).oid with
+  | none => ((s, some .assertion), [])
   | some k =>
-    let new := isNewObj s o k
-    let s :=
-      if new then { s with creating := s.creating.set k (!s.added.has k), added := s.added.del k }
-      else { s with modified := s.modified ++ [k] }
+    let s := classify s i k
     -- `writer.serialize(obj)`: `__getstate__` un-ghosts, pickling assigns oids to new references
     match access s i with
-    | .error e => (.error e, s, [])
-    | .ok s =>
+    | (s, some e) => ((s, some e), [])
+    | (s, none) =>
       let o := s.objs i
-      let (s, pushed) := serialize s o.refs
-      let r : Rec := ⟨o.serial, o.val, o.refs⟩
-      match s.sp with
-      | some t =>
-        -- TmpStore.store returns the serial: the object becomes up to date
-        let s := { s with sp := some (t.store k r), cache := s.cache.set k i }
-        let s := setO s i { s.objs i with status := .uptodate }
-        (.ok s, s, pushed)
-      | none =>
-        match storageStore s k r with
-        | .error e => (.error e, { s with nstores := s.nstores + 1 }, pushed)
-        | .ok s => let s := { s with cache := s.cache.set k i }
-                   (.ok s, s, pushed)
+      let sp := serialize s o.refs
+      (storeRec sp.1 i k ⟨o.serial, o.val, o.refs⟩, sp.2)
 
 /-- `_store_objects(ObjectWriter(obj))`: drain the writer's stack (head = top).  `fuel` bounds the
     number of iterations (`Proofs` shows the bound passed by `connCommit` always suffices). -/
@@ -403,8 +407,8 @@ def storeObjects : Nat → State → List ObjId → State × Option Err
                | some k => isNewObj s (s.objs i) k
                | none => false
     match storeOne s i with
-    | (.ok _, s', pushed) => storeObjects fuel s' (pushed.reverse ++ rest)
-    | (.error e, s', pushed) =>
+    | ((s', none), pushed) => storeObjects fuel s' (pushed.reverse ++ rest)
+    | ((s', some e), pushed) =>
       -- instrumentation: the defect situation D1
       ({ s' with d1 := s'.d1 || new || !(pushed ++ rest).isEmpty }, some e)
 
@@ -460,8 +464,8 @@ def replay (src : TmpStore) : State → List Oid → State × Option Err
       | none => (s, some .assertion)
       | some r =>
         match storageStore s k r with
-        | .error e => ({ s with nstores := s.nstores + 1 }, some e)
-        | .ok s => replay src s rest
+        | (s, some e) => (s, some e)
+        | (s, none) => replay src s rest
 
 /-- `_commit_savepoint` -/
 def commitSavepoint (s : State) : State × Option Err :=
@@ -620,8 +624,8 @@ def mutate (s : State) (i : ObjId) (f : Obj → Option Obj) : State × Out :=
   if !s.opened && (s.objs i).jar then (s, .err .closed)
   else
     match access s i with
-    | .error e => (s, .err e)
-    | .ok s =>
+    | (s, some e) => (s, .err e)
+    | (s, none) =>
       match f (s.objs i) with
       | none => (s, .ok)
       | some o' => (markChanged (setO s i o') i, .ok)
@@ -665,8 +669,8 @@ def opPeek (s : State) (i : ObjId) : Out :=
 def step (bound : Nat) (s : State) : Op → State × Out
   | .read i =>
     match access s i with
-    | .error e => (s, .err e)
-    | .ok s => (s, .value (s.objs i).val (s.objs i).refs)
+    | (s, some e) => (s, .err e)
+    | (s, none) => (s, .value (s.objs i).val (s.objs i).refs)
   | .modify i v => mutate s i fun o => some { o with val := v }
   | .link i j => mutate s i fun o => if o.refs.contains j then none else some { o with refs := o.refs ++ [j] }
   | .unlink i j => mutate s i fun o => if o.refs.contains j then some { o with refs := o.refs.filter (· != j) } else none
